@@ -383,20 +383,25 @@ def procStep (st0 : ProcEng) (t : Tokens) (impl : Option String) : ProcEng × St
       | some r =>
         match r.cat with
         | .preconnect =>
-          if o == Outcome.ok then (st, [])
+          -- the result of an attempt counts only while the application is still waiting for a verdict (another attempt,
+          -- launched after the back-off while this one was in flight, may have decided meanwhile: the first verdict stands)
+          if o == Outcome.ok || ((getApp st0.s r.app).map (·.state)) != some AState.unknown then (st, [])
           else
             let st := if o == Outcome.status 410 then { st with terminal := (r.app, "disconnected") :: st.terminal }
                       else if o == Outcome.status 401 then { st with terminal := (r.app, "invalidlicense") :: st.terminal }
                       else { st with needConnect := r.app :: st.needConnect }
             (st, [])
         | .connect =>
-          if o == Outcome.ok && (kvGet t "bad").isNone then
+          if ((getApp st0.s r.app).map (·.state)) != some AState.unknown then (st, [])
+          else if o == Outcome.ok && (kvGet t "bad").isNone then
             let hdr := (let h := kvOr t "hdr" "-"; if h == "-" then "" else h)
             let rules := (splitList (kvOr t "rules" "") ",").filterMap (fun e => match e.splitOn ">" with
               | [a, b] => some (a, b)
               | _ => none)
+            -- connected: whatever earlier failure asked for a retry is satisfied
             ({ st with runInfo := (kvOr t "run" "r?", (r.app, r.license, r.collector, hdr)) :: st.runInfo,
-                       runRules := (kvOr t "run" "r?", rules) :: st.runRules }, [])
+                       runRules := (kvOr t "run" "r?", rules) :: st.runRules,
+                       needConnect := st.needConnect.filter (· != r.app) }, [])
           else
             let st := if o == Outcome.status 410 then { st with terminal := (r.app, "disconnected") :: st.terminal }
                       else if o == Outcome.status 401 then { st with terminal := (r.app, "invalidlicense") :: st.terminal }
